@@ -332,6 +332,8 @@ def pair_work(arg):
 
 
 def run(rep, tier):
+    from .. import scale
+    scale.run(rep, PROP, tier)          # size ladders (seedverif/scale.py): the entries that concern this property
     rng = core.rng_for(PROP)
     seed = rng.randrange(1 << 40)
     pool = make_pool(tier, random.Random(seed))
@@ -419,6 +421,22 @@ def run(rep, tier):
     elif o.crashed or o.code != 103 or o.out != b"true\nfalse\ntrue\nnext fails\n" or not (judge.Diag(o.err).ok and judge.atoms_present(judge.Diag(o.err).msg, ["int", "string"], False)):
         rep.violation("C10/deep", "150-deep lists differing only at the bottom: expected true/false/true then a type error naming int and string; got exit %s stdout %r stderr %r" % (o.code, o.out, o.err[:160]),
                       {"src": deep_src, "oracle": "depth-independent structural equality"})
+    # containers that reach themselves, compared with themselves (directly, through an alias, at corresponding positions of fresh containers)
+    cyc_src = ("a := [1, 2]\na[1] = a\no := {\"k\": 1}\no.self = o\nhead := {\"label\": \"head\", \"next\": null}\ntail := {\"label\": \"tail\", \"prev\": head}\nhead.next = tail\n"
+               "m := {\"xs\": []}\nm.xs = [m]\nl2 := [{}]\nl2[0].up = l2\n"
+               "for [_, c] in [a, o, head, tail, m, l2] {\n    alias := c\n    print(c == c)\n    print(c == alias)\n    print(c != alias)\n    print(c === alias)\n    print([c] == [c])\n"
+               "    print({\"k\": c} == {\"k\": c})\n    print([0, c] != [0, c])\n    print([c, [c]] == [alias, [alias]])\n}\n"
+               "print(head.next.prev == head)\nprint(a[1][1][1] == a)\nprint(m.xs[0] == m)\nprint(o == o.self.self)\n")
+    o = core.run_one({"src": cyc_src})
+    rep.evaluations += 1
+    rep.process_runs += 1
+    rep.tally("single_pairs", "cyclic-self")
+    want = b"true\ntrue\nfalse\ntrue\ntrue\ntrue\nfalse\ntrue\n" * 6 + b"true\n" * 4
+    if o.timeout:
+        rep.note_inconclusive("cyclic self comparison: timeout")
+    elif o.died or o.code != 0 or o.out != want:
+        rep.violation("C10/cyclic-self", "a container that reaches itself, compared with itself (same container on both sides): expected true for ==, false for != everywhere; got exit %s stdout %r stderr %r" % (
+            o.code, o.out.decode("utf-8", "replace").split(), o.err[:160]), {"src": cyc_src, "oracle": "x == x for the same container; === implies =="})
     # error / traversal-dependent pairs, one process each
     pairs = []
     for i in range(n):
